@@ -22,6 +22,11 @@ def _cardano(b, d):
     return _cbrt(d / 2.0 + s) + _cbrt(d / 2.0 - s)
 
 
+# more than ten data (numbered by position): d0 x + sum_{k>=1} w_k d_k = 0
+MANY_N = 12
+MANY_WEIGHTS = [0.0] + [((-1) ** k) * (0.3 + 0.17 * ((7 * k) % 5)) for k in range(1, MANY_N)]
+
+
 ROOTS = {
     # name: (number of observables, residual, inverse, sensitivities)
     'power': (1,
@@ -56,6 +61,10 @@ ROOTS = {
                    lambda x, d, c: d[0] * x + d[1] - d[2],
                    lambda d, c: (d[2] - d[1]) / d[0],
                    lambda d, c, x: [-x / d[0], -1.0 / d[0], 1.0 / d[0]]),
+    'vec_many': (MANY_N,
+                 lambda x, d, c: d[0] * x + sum(MANY_WEIGHTS[k] * d[k] for k in range(1, MANY_N)),
+                 lambda d, c: -sum(MANY_WEIGHTS[k] * d[k] for k in range(1, MANY_N)) / d[0],
+                 lambda d, c, x: [-x / d[0]] + [-MANY_WEIGHTS[k] / d[0] for k in range(1, MANY_N)]),
     'vec_cubic': (2,
                   lambda x, d, c: x ** 3 + d[0] * x - d[1],
                   lambda d, c: _cardano(d[0], d[1]),
@@ -207,6 +216,7 @@ def self_check():
         'power': ([2.3], {'n': 3}), 'exp': ([1.7], {'a': -0.8}), 'log': ([0.6], {'a': 1.4}), 'tanh': ([0.45], {'a': 0.7}),
         'cubic': ([-1.9], {'b': 0.8}), 'vec_ratio_exp': ([1.3, 2.9], {}), 'vec_quadratic': ([0.7, 2.2], {}),
         'vec_linear': ([-1.6, 0.4, 2.5], {}), 'vec_cubic': ([1.1, -2.7], {}),
+        'vec_many': ([1.3] + [0.2 * k - 1.1 for k in range(1, MANY_N)], {}),
     }
     for name, (d, c) in pts.items():
         n, res, inv, sens = ROOTS[name]
